@@ -431,6 +431,7 @@ class Interp:
             children=sum(1 for c in k.procs.values() if c.ppid == 100 and not c.reaped
                          and c.role != "tracker"),
             sems=sum(1 for s in k.sems.values() if s.creator == 100),
+            feeders_in_write=sum(1 for t in root.tasks if t.state == sk.BLOCKED and t.role == "feeder" and t.what == "write"),
             tag=o.get("tag"))
         self.obs.data.setdefault("snapshots", []).append(snap)
         return snap
